@@ -65,10 +65,22 @@ inductive Env where
   | onstack (offset : Nat) (length : Nat) (fiber : Val)
   deriving DecidableEq, Repr
 
-/-- heap objects: the data objects of Graph.lean and functions -/
+/-- one call of an abstract type's marshal hook on its `JanetMarshalContext` (see Abstract.lean) -/
+inductive AItem where
+  | int (i : Int)               -- janet_marshal_int
+  | i64 (u : Nat)               -- janet_marshal_int64 / janet_marshal_size (the uint64_t view)
+  | byte (b : Nat)              -- janet_marshal_byte
+  | bytes (bs : List Nat)       -- janet_marshal_bytes
+  | janet (v : Val)             -- janet_marshal_janet
+  deriving DecidableEq, Repr
+
+/-- heap objects: the data objects of Graph.lean, functions, and abstracts (recorded as the calls their marshal hook makes
+before and after `janet_marshal_abstract`; the hook protocol is modelled in Abstract.lean, the dispatch on the type name is
+not, so `marshalC` itself stops at an abstract) -/
 inductive CObj where
   | data (o : Obj)
   | func (defIdx : Nat) (envs : List Nat)
+  | abs (name : Val) (pre post : List AItem)
   deriving DecidableEq, Repr
 
 structure Heap where
@@ -218,7 +230,8 @@ def marshalC : Nat → Heap → Val → W
           | .func di envs =>
             -- pushbyte(LB_FUNCTION); pushint(environments_length); MARK_SEEN(); marshal_one_def(flags + 1); envs (flags + 1)
             W.lead lb_function (W.seq (W.int envs.length) (W.seq (W.markObj id)
-              (W.seq (fun c => marshalDef fuel T di c) (W.list (fun ei c => marshalEnv fuel T ei c) envs))))) c
+              (W.seq (fun c => marshalDef fuel T di c) (W.list (fun ei c => marshalEnv fuel T ei c) envs))))
+          | .abs _ _ _ => W.fail) c
 
 /-- `marshal_one_def` -/
 def marshalDef : Nat → Heap → Nat → W
